@@ -14,12 +14,12 @@ from . import dense as dn
 from . import walk
 
 RULE_SUFFIX = (' Plus HISTORY WALKS (ttmon/hist.py): the operations of this property executed inside random call histories over a pool of objects (views, copies, results of earlier calls; '
-               'in-place set_core / reduce_dims / raw core writes in between) and compared with a dense model of the operands as they are at the call.')
+               'in-place set_core / reduce_dims / raw core writes in between; a call re-issued after an in-place change of one of its operands) and compared with a dense model of the operands as they are at the call.')
 
 OWN = {
     'C02': ['round'],
     'C03': ['add', 'sub', 'mul', 'bcast', 'scalar', 'neg', 'pos', 'kron', 'full'],
-    'C04': ['matmul', 'add', 'sub', 'mul', 'scalar', 'neg', 'kron', 'full', 'convert'],
+    'C04': ['matmul', 't', 'add', 'sub', 'mul', 'scalar', 'neg', 'kron', 'full', 'convert'],
     'C07': ['sum', 'dot', 'norm', 'bilinear'],
     'C08': ['getitem', 'getitem_bare', 'apply_mask'],
     'C09': ['cat', 'pad', 'diag', 'mprod', 'convert'],
@@ -49,5 +49,8 @@ def run(prop, case, ctx):
     ctx.count('history_walks')
     for _ in range(case['steps']):
         u = w.rng.random()
+        if u < 0.12:
+            w.repeat()
+            continue
         name = w.rng.choice(own) if u < 0.55 else (w.rng.choice(INPLACE) if u < 0.75 else w.rng.choice(FILLER))
         w.step(name)
